@@ -1,7 +1,7 @@
 //! S-TOK: token sequences over all distinguishable token kinds, one representative spelling each.
 
 /// (name, spelling, starts a declaration in the second-generation parser)
-pub const TOKS: [(&str, &str, bool); 62] = [
+pub const TOKS: [(&str, &str, bool); 63] = [
 	("(", "(", false),
 	(")", ")", false),
 	("{", "{", false),
@@ -56,6 +56,7 @@ pub const TOKS: [(&str, &str, bool); 62] = [
 	("type", "i32", false),
 	("ident", "x", false),
 	("ident2", "y", false),
+	("main", "main", false),
 	("builtin", "print!", false),
 	("dec", "1", false),
 	("bit", "0x1", false),
